@@ -7,7 +7,7 @@ from .common import MachineryError
 
 DISPATCH = {
     "C01": "tok", "C02": "tok", "C03": "tok", "C04": "tok", "C08": "tok",
-    "C10": "reader", "C19": "reader", "C11": "source", "C05": "split", "C07": "energy", "C15": "cli", "X01": "mic", "X02": "export", "X03": "workers", "X04": "cli", "X05": "dispatch", "C20": "reuse", "C16": "region", "C18": "files", "C17": "region", "C12": "workers", "C13": "workers", "C14": "workers", "C06": "split", "C09": "split",
+    "C10": "reader", "C19": "reader", "C11": "source", "C05": "split", "C07": "energy", "C15": "cli", "X01": "mic", "X02": "export", "X03": "workers", "X04": "cli", "X05": "dispatch", "X06": "workers", "C20": "reuse", "C16": "region", "C18": "files", "C17": "region", "C12": "workers", "C13": "workers", "C14": "workers", "C06": "split", "C09": "split",
 }
 
 
